@@ -267,9 +267,15 @@ def run(ctx):
                         f"option `{opt}` of `pyhf {f.name}` does not reach {callee}({formal or ''}): {why}",
                         expected=f"{callee}(..., {formal}=<derived from {py}>)" if formal else callee, found=why, node=f.node,
                     )
+        # ---- patches are applied cumulatively; the optimiser is installed after the last backend switch
+        _cumulative_patches(ctx, r1, f)
+        _optimizer_after_backend(ctx, r1, f)
         # ---- R2
         _file_vs_stdout(ctx, r2, f)
 
+    wm = repo.func(WS, "Workspace.model")
+    ctx.touch(wm)
+    _cumulative_patches(ctx, r1, wm)
     # ---- R3
     cli_mod = repo.module(CLI + "cli.py")
     ctx.touch_file(cli_mod.relpath)
@@ -342,6 +348,43 @@ def _reaches(repo, f, fd: FlowDeps, deps: Deps, py, callee, formal):
             return True, f"{fname} <- {A.short(actual, 40)}"
         last_why = f"{fname} <- {A.short(actual, 40)} which does not derive from `{py}`"
     return False, last_why
+
+
+def _cumulative_patches(ctx, rid, f):
+    """for p in patches: X = JsonPatch(p).apply(Y)  -- Y must be X (each patch applied on top of the previous result)."""
+    for loop in [n for n in ast.walk(f.node) if isinstance(n, ast.For)]:
+        for st in loop.body:
+            if isinstance(st, ast.Assign) and isinstance(st.value, ast.Call) and A.call_attr(st.value) == "apply" and "JsonPatch" in A.unparse(st.value.func) and st.value.args:
+                tgt = A.unparse(st.targets[0])
+                arg = A.unparse(st.value.args[0])
+                site = f"{f.relpath}::{f.qualname}: {A.short(st, 70)}"
+                if tgt == arg:
+                    ctx.holds(rid, site, "patches applied cumulatively (loop-carried)")
+                else:
+                    ctx.violated(rid, f, st, f"each patch is applied to `{arg}` instead of the running result `{tgt}`: with several -p/--patch options only the last one takes effect", expected=f"{tgt} = ...apply({tgt})", found=A.short(st, 80), node=st)
+
+
+def _optimizer_after_backend(ctx, rid, f):
+    """A set_backend(<backend only>) call resets the optimiser to the default: none may run after the call that installs --optimizer."""
+    from ..cfg import CFG
+    calls = [c for c in A.calls_in(f.node) if A.call_attr(c) == "set_backend"]
+    if len(calls) < 2:
+        return
+    pm = A.parent_map(f.node)
+    withopt = [c for c in calls if len(c.args) >= 2 or any(k.arg == "custom_optimizer" for k in c.keywords)]
+    plain = [c for c in calls if c not in withopt]
+    if not withopt:
+        return
+    g = CFG.build(f.node.body)
+    for o in withopt:
+        on = g.node_of(A.stmt_of(o, pm))
+        reach = g.reachable(on) if on is not None else set()
+        late = [b for b in plain if g.node_of(A.stmt_of(b, pm)) in reach and g.node_of(A.stmt_of(b, pm)) != on]
+        site = f"{f.relpath}::{f.qualname}: {A.short(o, 60)}"
+        if late:
+            ctx.violated(rid, f, late[0], f"`{A.short(late[0], 50)}` can run after the optimizer was installed; set_backend without an optimizer resets it to the default, so --optimizer/--optconf are lost whenever a non-default --backend is selected", expected="install the optimizer after the backend switch", node=late[0])
+        else:
+            ctx.holds(rid, site, "no backend-only set_backend call can follow the optimizer installation")
 
 
 def _file_vs_stdout(ctx, rid, f):
